@@ -100,7 +100,7 @@ def build_conc(tier, seed, prop):
                 cp = os.path.join(d, "r%d.cases.json" % ri)
                 p = L.sh([exe, "conc", "-seed", str(seed + run["seed_off"]), "-preempt", str(run["preempt"]),
                           "-max-runs", str(run["max_runs"]), "-scale", run["scale"], "-family", FAMILY_OF[prop],
-                          "-out", tp, "-cases-out", cp], timeout=5000)
+                          "-out", tp, "-cases-out", cp], timeout=1500 if tier == "quick" else 7200)
                 try:
                     summ = json.loads(p.stdout.strip().splitlines()[-1])
                 except Exception:
